@@ -420,6 +420,26 @@ def check_uses(repo, rep, fi, taint):
     mod = fi.module
     g = None
     for n in ast.walk(fi.node):
+        # positional access into an unordered value that is not a plain
+        # name: candidates[0][...], next(iter(candidates[0]))
+        if isinstance(n, ast.Call):
+            d = repo.resolve(mod, n.func, model.scope_locals(fi))
+            if d == 'builtins.next' and n.args and not isinstance(
+                    n.args[0], ast.Name):
+                k = taint.expr_kind(n.args[0])
+                if k in ('T', 'U'):
+                    rep.ob('R06c', '%s/first-of-unordered' % fi.key, False,
+                           '%s takes whichever element an unordered '
+                           'overload set yields first' % model.norm(n),
+                           loc=mod.loc(n), construct=model.norm(n))
+        if isinstance(n, ast.Subscript) and not isinstance(
+                n.value, ast.Name) and not isinstance(n.slice, ast.Slice):
+            k = taint.expr_kind(n.value)
+            if k in ('T', 'U'):
+                rep.ob('R06c', '%s/index-into-unordered' % fi.key, False,
+                       '%s picks an element of an unordered overload set '
+                       'by position' % model.norm(n), loc=mod.loc(n),
+                       construct=model.norm(n))
         if not (isinstance(n, ast.Name) and isinstance(n.ctx, ast.Load)):
             continue
         k = taint.kind.get(n.id)
